@@ -698,7 +698,12 @@ def disown_fn(
 
     messages = []
     # if args.job_ids is empty, use the active task
-    for tid in job_ids or [tasks[0]]:
+    tids = list(dict.fromkeys(job_ids)) or [tasks[0]]
+    # validate everything first: an invalid ID must not leave the table half-edited
+    for tid in tids:
+        if tid not in get_jobs():
+            return "", f"'{tid}' is not a valid job ID"
+    for tid in tids:
         try:
             current_task = get_task(tid)
         except KeyError:
